@@ -234,6 +234,11 @@ def run_job(job, keep_graph=False):
                         running = True
                     gs = g.run(gs)
                     cur["runs"] = cur.get("runs", 0) + 1
+                elif kind == "idle":
+                    # the user pauses until every worker has gone quiet (token-limited sources do): lifecycle calls must
+                    # work "regardless of when the user calls them relative to the progress of the node threads"
+                    me = S.current
+                    S.yield_point(("user.idle",), blocked_on=lambda: not any(t.enabled() for t in S.threads if t is not me))
                 elif kind == "set_delay":
                     # ["set_delay", "node", name, units] | ["set_delay", "edge", index, units]: change an *expected* delay
                     # between episodes (public API); phases of the next episode must follow
